@@ -13,3 +13,5 @@ import CardVerif.Props.C06b
 #print axioms CardVerif.C06.omaha_fast_eq_spec
 #print axioms CardVerif.C06.omaha_fast_eq_brute
 #print axioms CardVerif.C06.omaha_fast_sym
+#print axioms CardVerif.C06.plo_no_internal_error
+#print axioms CardVerif.C06.plo_no_internal_error_f53
